@@ -204,12 +204,31 @@ def run(run):
         key_undec = None
         val_kill = False
         val_undec = None
-        for n in T.walk(arm["b"]):
+
+        def contexts(root, vids, depth, cond):
+            """(node, root of its body, ids standing for the defined variable there, reached conditionally?) -- follows calls to
+            small crate-local helper functions, mapping the helper's parameters to the arguments that carry the variable"""
+            for n in T.walk(root):
+                yield n, root, vids, cond
+                if depth < 2 and n.get("k") == "Call" and "f" in n and n.get("n") not in ("retain", "insert", "remove"):
+                    tgt = n.get("r") or n.get("f")
+                    g = F.by_path.get(tgt)
+                    if g is not None and g.get("dk") in ("Fn", "AssocFn") and g is not fn and len(g["params"]) == len(n.get("a", [])):
+                        sub = set()
+                        for p_, a_ in zip(g["params"], n["a"]):
+                            if p_.get("p") and any(y.get("k") in ("Var", "Upvar") and y.get("id") in vids for y in T.walk(a_)):
+                                sub |= {b[0] for b in T.pat_bindings(p_["p"])}
+                        if sub:
+                            yield from contexts(g["body"], sub, depth + 1, cond or inside_if(root, n))
+        all_var_ids = set(var_ids)
+        ctxs = list(contexts(arm["b"], set(var_ids), 0, False))
+        for n, root, var_ids, cond in ctxs:
+            all_var_ids |= var_ids
             if T.is_call(n, ("insert", "remove")) and len(n["a"]) >= 2:
                 a1 = S.Sym(F).ev(n["a"][1], {})
                 if any(isinstance(x, tuple) and x and x[0] == "var" and x[2] in var_ids for x in S.subterms(a1)):
                     # insert under a condition only counts together with a key-kill retain; unconditional insert/remove kills the key
-                    if not inside_if(arm["b"], n):
+                    if not cond and not inside_if(root, n):
                         key_kill = True
             if T.is_call(n, "retain") and len(n["a"]) == 2:
                 cl = T.peel(n["a"][1])
@@ -232,6 +251,7 @@ def run(run):
                     else:
                         conj.append(t)
                 flat(S.value(body))
+                conj = [inline_pred(l_) for l_ in conj]
                 for lit in conj:
                     uses_k = any(isinstance(x, tuple) and x and x[0] == "var" and x[2] in kids for x in S.subterms(lit))
                     uses_v = any(isinstance(x, tuple) and x and x[0] == "var" and x[2] in vids for x in S.subterms(lit))
@@ -278,6 +298,33 @@ def run(run):
             run.undecided("R3", k2, val_undec, site)
         else:
             run.violated("R3", k2, "after Def::%s entries whose expression mentions the defined variable survive" % variant, site)
+
+    def inline_pred(lit):
+        """a clause that calls a small crate-local predicate is read through its body (parameters replaced by the arguments)"""
+        pol_wrap = []
+        l = lit
+        while l[0] == "not":
+            pol_wrap.append("not")
+            l = l[1]
+        if is_call(l) and l[3] in F.by_path and l[1] not in ("any", "all", "contains", "eq", "ne"):
+            g = F.by_path[l[3]]
+            if g.get("dk") in ("Fn", "AssocFn") and len(g["params"]) == len(l[2]) and sum(1 for _ in T.walk(g["body"])) < 80:
+                env = {}
+                for p_, a_ in zip(g["params"], l[2]):
+                    for b in T.pat_bindings(p_["p"]) if p_.get("p") else []:
+                        env[b[0]] = a_
+                sy2 = S.Sym(F)
+                sy2.scan(g["body"])
+                body = S.value(sy2.ev(g["body"], env))
+                # closures of the helper keep the helper's parameter ids: note which caller terms they stand for
+                for p_, a_ in zip(g["params"], l[2]):
+                    for b in T.pat_bindings(p_["p"]) if p_.get("p") else []:
+                        alias[b[0]] = a_
+                l = body
+        for _ in pol_wrap:
+            l = ("not", l)
+        return l
+    alias = {}
 
     def inside_if(root, target):
         """True if target sits inside an If/Match-arm below root (conditional execution)"""
